@@ -530,6 +530,20 @@ func c17Env(gitEnv map[string]string) lfshttp.Context {
 	return lfshttp.NewContext(git.NewReadOnlyConfig("", ""), map[string]string{}, gitEnv)
 }
 
+// c17AskpassStub is a tiny askpass program (prints a fixed answer); it is only ever started by the askpass helper's Fill.
+var c17AskpassOnce sync.Once
+var c17AskpassPath string
+
+func c17AskpassStub() string {
+	c17AskpassOnce.Do(func() {
+		c17AskpassPath = filepath.Join(os.Getenv("VERIF_SCRATCH"), fmt.Sprintf("c17-askpass-%d.sh", os.Getpid()))
+		if err := os.WriteFile(c17AskpassPath, []byte("#!/bin/sh\necho askpass-answer\n"), 0755); err != nil {
+			panic(vx.ToolError{Msg: "cannot write askpass stub: " + err.Error()})
+		}
+	})
+	return c17AskpassPath
+}
+
 func c17Finish(o *c17Obs, r *vx.Result, scen string, extra string) {
 	r.Outcome = scen + "/" + extra + "/" + strings.Join(o.calls, ",")
 	if o.ncall == 0 {
@@ -547,7 +561,46 @@ func c17RunDirect(x *vx.X) vx.Result {
 	var op string
 	var pp c17PP
 	desc := ""
-	switch sub := x.In(4); sub {
+	chainCfg := map[string]string{}
+	switch sub := x.In(5); sub {
+	case 4:
+		// helper-chain composition: an askpass program configured (GIT_ASKPASS / core.askpass / SSH_ASKPASS select the same code
+		// path; core.askpass is the one reachable through configuration) with and without a credential.helper, general or URL-scoped.
+		// The chain GetCredentialHelper builds differs (askpass helper in or out), the refusal rules must not.
+		chains := []struct {
+			name string
+			cfg  map[string]string
+		}{
+			{"askpass+helper", map[string]string{"core.askpass": c17AskpassStub(), "credential.helper": "store"}},
+			{"askpass+url-helper", map[string]string{"core.askpass": c17AskpassStub(), "credential.https://h.io:8443.helper": "store"}},
+			{"askpass-only", map[string]string{"core.askpass": c17AskpassStub()}},
+			{"helper-only", map[string]string{"credential.helper": "store"}},
+		}
+		ch := chains[x.In(len(chains))]
+		chainCfg = ch.cfg
+		op = c17Ops[x.In(len(c17Ops))]
+		if ch.name == "askpass-only" {
+			// the askpass helper answers fill, approve and reject itself (its Approve/Reject return nil, which ends the chain):
+			// `git credential` is not part of these exchanges and the statement says nothing about them.  Kept as a counted case.
+			cx := c17Env(ch.cfg)
+			hctx := creds.NewCredentialHelperContext(cx.GitEnv(), cx.OSEnv())
+			u, _ := url.Parse(c17DirectURL)
+			c17ResetRecs([]byte(c17DefaultAnswer))
+			w := hctx.GetCredentialHelper(nil, u)
+			switch op {
+			case "approve":
+				w.CredentialHelper.Approve(m)
+			case "reject":
+				w.CredentialHelper.Reject(m)
+			}
+			r.Outcome = "direct/chain/askpass-only-ends-the-chain-before-git-credential"
+			return r
+		}
+		pp = c17PPs[x.In(len(c17PPs))]
+		f := c17Fields[x.In(len(c17Fields))]
+		seq := []string{"\n", "\r", "\x00", "x"}[x.In(4)]
+		m[f.key][f.idx] = c17Place(f.base, seq, len(f.base)/2)
+		desc = fmt.Sprintf("chain=%s field=%s#%d seq=%q", ch.name, f.key, f.idx, seq)
 	case 0, 1:
 		// 0: palette x every op x every protectProtocol configuration; 1: all 256 byte values
 		// quick tier bounds (thorough: the full product op x config x slot x sequence x every index for both):
@@ -626,7 +679,14 @@ func c17RunDirect(x *vx.X) vx.Result {
 		desc = fmt.Sprintf("shape %d field=%s#%d seq=%q", shape, f.key, f.idx, seq)
 	}
 	c17ResetRecs([]byte(c17DefaultAnswer))
-	cx := c17Env(pp.cfg)
+	cfgAll := map[string]string{}
+	for k, v := range pp.cfg {
+		cfgAll[k] = v
+	}
+	for k, v := range chainCfg {
+		cfgAll[k] = v
+	}
+	cx := c17Env(cfgAll)
 	hctx := creds.NewCredentialHelperContext(cx.GitEnv(), cx.OSEnv())
 	u, _ := url.Parse(c17DirectURL)
 	w := hctx.GetCredentialHelper(nil, u)
@@ -1470,7 +1530,7 @@ func TestVerifC17(t *testing.T) {
 		return
 	}
 	c := vx.NewCheck("C17", "exploration")
-	c.Rule = "one execution = one case = one choice vector. direct: credential maps over the 16 git-credential attribute slots " +
+	c.Rule = "one execution = one case = one choice vector. direct: credential maps over the 16 git-credential attribute slots (plus sub-case helper-chain composition: core.askpass with / without a general or URL-scoped credential.helper x op x protectProtocol configuration x slot x {LF, CR, NUL, x}) " +
 		"(protocol, host, path, username, password, wwwauth[]#0/#1, state[]#0/#1, authtype, credential, password_expiry_utc, oauth_refresh_token, url, ephemeral, continue) " +
 		"with one byte sequence inserted at EVERY index of one slot's value (and as the whole value): 20-sequence palette (LF, CR, NUL, CRLF, LFCR, NUL+LF, TAB, ESC, '=', SP, DEL, U+0085, U+2028, VT, FF, 0x01, 0x80, 0x85, 0xff, 'x') " +
 		"x {approve, fill, reject} x 5 protectProtocol configurations (unset, false, true, URL-scoped false, global false + URL-scoped true), " +
